@@ -531,7 +531,7 @@ impl MutationParser {
         mutation_field.field_type = field.field_type.clone();
 
         let value = content_pair.as_str();
-        mutation_field.field_value = MutationFieldValue::Value(ParamValue::Float(value.parse()?));
+        mutation_field.field_value = MutationFieldValue::Value(ParamValue::Float(super::parse_float(value)?));
         Ok(())
     }
 
@@ -544,7 +544,7 @@ impl MutationParser {
             FieldType::Float => {
                 let value = content_pair.as_str();
                 mutation_field.field_value =
-                    MutationFieldValue::Value(ParamValue::Float(value.parse()?));
+                    MutationFieldValue::Value(ParamValue::Float(super::parse_float(value)?));
             }
             FieldType::Integer => {
                 let value = content_pair.as_str();
